@@ -1100,6 +1100,16 @@ func (env *SpecEnv) call(e *SExpr) Val {
 			lo = env.callK + 1
 		}
 		return VInt{T: Or(Eq(r, IntLit(0)), And(Ge(r, IntLit(lo)), Lt(r, IntLit(1000000000))))}
+	case "armed":
+		// armed(t): the timer or ticker t will fire (again) without further action
+		v, ok := env.ev(args[0]).(VPtr)
+		if !ok {
+			env.fail("armed expects a *time.Timer or *time.Ticker")
+		}
+		if n := namedOf(env.st.eng.pointee(v)); n != nil && n.Obj().Name() == "Ticker" {
+			return VInt{T: tTrue}
+		}
+		return VInt{T: Select(env.st.heapGet("model:Timer.armed", ArrSort(SBool)), v.Ref)}
 	case "bytesOf":
 		// the content of []byte(s) for a string s
 		return VInt{T: UF("bytes_of_str", SInt, env.evalInt(args[0]))}
